@@ -28,7 +28,7 @@ import (
 )
 
 type Op struct {
-	Op string `json:"op"`          // lookup use createother rmdir badref baddigest pool expire
+	Op string `json:"op"`          // lookup use createother rmdir badref alias baddigest pool expire
 	K  string `json:"k,omitempty"` // lookup: diff blob info use other
 	R  int    `json:"r"`
 	T  int    `json:"t,omitempty"`
@@ -122,6 +122,26 @@ func (m *machine) rawLookup(parent uint64, name string) (uint64, fuse.Status) {
 	var out fuse.EntryOut
 	st := m.raw.Lookup(nil, &fuse.InHeader{NodeId: parent}, name, &out)
 	return out.NodeId, st
+}
+
+// aliasDir is refDir(r) with the unused low bits of its last symbol set: base64.StdEncoding (non-strict) decodes it to the same bytes.
+func aliasDir(r int) string {
+	const alpha = "ABCDEFGHIJKLMNOPQRSTUVWXYZabcdefghijklmnopqrstuvwxyz0123456789+/"
+	d := []byte(refDir(r))
+	i := len(d) - 1
+	for i >= 0 && d[i] == '=' {
+		i--
+	}
+	if i < 0 || i == len(d)-1 {
+		return string(d) + "\n" // no padding: CR/LF are skipped by the decoder
+	}
+	for k := 0; k < len(alpha); k++ {
+		if alpha[k] == d[i] {
+			d[i] = alpha[k^1]
+			break
+		}
+	}
+	return string(d)
 }
 
 func refDir(r int) string { return base64.StdEncoding.EncodeToString([]byte(refName(r))) }
@@ -229,6 +249,9 @@ func (m *machine) judge(d dump, pre dump, fn [][4]int) {
 	}
 	if d.empties != 0 {
 		m.fail("", "%d empty inner maps left behind", d.empties)
+	}
+	for _, e := range d.closed {
+		m.fail("", "layer (ref %d, toc %d) is held by the manager (%d outstanding uses) but its object has been closed", e[0], e[1], m.own[[2]int{e[0], e[1]}])
 	}
 }
 
@@ -350,6 +373,20 @@ func (m *machine) run(ops []Op) []Obs {
 				}
 			}
 			out = append(out, m.observe("einval", pre))
+		case "alias":
+			// a non-canonical base64 spelling of the directory name of ref r (non-zero unused bits in the last symbol):
+			// it must not name the image (two directories for one image would be swept independently)
+			id, st := m.rawLookup(1, aliasDir(o.R))
+			if st == fuse.OK {
+				m.fail("", "root lookup of a non-canonical base64 name of ref %d returned OK (second directory for the same image)", o.R)
+				if lid, st2 := m.rawLookup(id, tocDigest(o.T).String()); st2 == fuse.OK {
+					m.rawLookup(lid, "diff")
+					m.quiesce()
+				}
+			} else if st != fuse.EINVAL {
+				m.fail("", "root lookup of a non-canonical base64 name returned %v", st)
+			}
+			out = append(out, m.observe("einval", pre))
 		case "baddigest":
 			rid, st := m.rawLookup(1, refDir(o.R))
 			if st != fuse.OK {
@@ -452,7 +489,7 @@ func coqOp(o Op) string {
 		return fmt.Sprintf("FCreateOther %d %d", o.R, o.T)
 	case "rmdir":
 		return fmt.Sprintf("FRmdir %d %d", o.R, o.T)
-	case "badref":
+	case "badref", "alias":
 		return "FBadRef"
 	case "baddigest":
 		return fmt.Sprintf("FBadDigest %d %s", o.R, hx.CoqBool(o.Rm))
@@ -561,7 +598,7 @@ func genCase(r *hx.Rng) Case {
 	looked := [][2]int{}
 	for len(c.Ops) < nops {
 		ref := pickRef()
-		switch r.Pick(34, 8, 22, 22, 2, 2, 2, 1, 5, 2) {
+		switch r.Pick(34, 8, 22, 22, 2, 2, 2, 1, 5, 2, 3) {
 		case 0:
 			t := pickToc(ref)
 			k := []string{"diff", "blob"}[r.Intn(2)]
@@ -603,6 +640,8 @@ func genCase(r *hx.Rng) Case {
 			}
 		case 9:
 			c.Ops = append(c.Ops, Op{Op: "pool"})
+		case 10:
+			c.Ops = append(c.Ops, Op{Op: "alias", R: ref, T: pickToc(ref)})
 		}
 	}
 	return c
@@ -620,6 +659,10 @@ func corpus() []Case {
 		{World: std, Ops: []Op{lk("info", 1, 1), lk("diff", 1, 1), lk("info", 1, 1), {Op: "use", R: 1, T: 1}, {Op: "use", R: 1, T: 1}, {Op: "rmdir", R: 1, T: 1}, lk("info", 1, 1), {Op: "rmdir", R: 1, T: 1}, lk("info", 1, 1), {Op: "rmdir", R: 1, T: 1}}},
 		// malformed names, unknown digests, non-existing image, pool
 		{World: std, Ops: []Op{{Op: "badref"}, {Op: "baddigest", R: 0}, {Op: "baddigest", R: 0, Rm: true}, {Op: "pool"}, lk("diff", 0, 50), lk("diff", 0, 100), lk("diff", 2, 0), lk("other", 0, 0), {Op: "createother", R: 0, T: 0}, {Op: "rmdir", R: 0, T: 0}}},
+		// a second spelling of the image's directory name; sibling stat'ed through it; last rmdir through the canonical name
+		{World: std, Ops: []Op{lk("diff", 0, 0), {Op: "alias", R: 0, T: 1}, {Op: "use", R: 0, T: 0}, {Op: "rmdir", R: 0, T: 0}, lk("diff", 0, 1)}},
+		// in-use layer survives TTL expiry + sibling release + re-resolution
+		{World: std, Ops: []Op{lk("diff", 0, 0), {Op: "use", R: 0, T: 0}, lk("diff", 0, 1), {Op: "use", R: 0, T: 1}, {Op: "expire", R: 0, L: 0}, {Op: "expire", R: 0, L: 1}, {Op: "rmdir", R: 0, T: 0}, lk("diff", 0, 0), lk("blob", 0, 1), {Op: "rmdir", R: 0, T: 1}}},
 		// registry error memoised (known finding), cleared by the last rmdir
 		{World: std, Ops: []Op{{Op: "lookup", K: "diff", R: 1, T: 1, Fl: []int{1}}, lk("diff", 1, 1), lk("diff", 1, 2), {Op: "use", R: 1, T: 2}, {Op: "rmdir", R: 1, T: 2}, lk("diff", 1, 1)}},
 	}
